@@ -723,6 +723,11 @@ mod os {
                 let child_env = config.env.as_deref().map(format_env);
                 let cmd_to_exec = config.executable.as_ref().unwrap_or(&argv[0]);
                 let just_exec = posix::prep_exec(cmd_to_exec, &argv, child_env.as_deref())?;
+                // converted before fork(): the child must not allocate
+                let chdir = match config.cwd.as_deref() {
+                    Some(cwd) => Some(posix::prep_chdir(cwd)?),
+                    None => None,
+                };
                 unsafe {
                     // unsafe because after the call to fork() the
                     // child is not allowed to allocate
@@ -738,7 +743,7 @@ mod os {
                             let result = Popen::do_exec(
                                 just_exec,
                                 child_ends,
-                                config.cwd.as_deref(),
+                                chdir.as_ref().map(|f| f as &dyn Fn() -> io::Result<()>),
                                 config.setuid,
                                 config.setgid,
                                 config.setpgid,
@@ -846,7 +851,7 @@ mod os {
         fn do_exec(
             just_exec: impl FnOnce() -> io::Result<()>,
             child_ends: (Option<Rc<File>>, Option<Rc<File>>, Option<Rc<File>>),
-            cwd: Option<&OsStr>,
+            chdir: Option<&dyn Fn() -> io::Result<()>>,
             setuid: Option<u32>,
             setgid: Option<u32>,
             setpgid: bool,
@@ -858,13 +863,13 @@ mod os {
         fn do_exec(
             just_exec: impl FnOnce() -> io::Result<()>,
             child_ends: (Option<Rc<File>>, Option<Rc<File>>, Option<Rc<File>>),
-            cwd: Option<&OsStr>,
+            chdir: Option<&dyn Fn() -> io::Result<()>>,
             setuid: Option<u32>,
             setgid: Option<u32>,
             setpgid: bool,
         ) -> io::Result<()> {
-            if let Some(cwd) = cwd {
-                env::set_current_dir(cwd)?;
+            if let Some(chdir) = chdir {
+                chdir()?;
             }
 
             let (stdin, stdout, stderr) = child_ends;
